@@ -489,7 +489,7 @@ SORTS = {0: "types", 1: "opts", 2: "opts", 3: "bounds", 4: "lbounds", 5: "regex"
 
 
 def eq_rows(put, objs1, objs2, uses1, uses2, re1, re2):
-    """rows 10..14 for every pair of same-sort parameters used by the two expressions"""
+    """rows 10, 11, 13, 14, 15 for every pair of same-sort parameters used by the two expressions"""
     for s, name in SORTS.items():
         conv = stored if s == 2 else (lambda x: x)
         srt = 1 if s == 2 else s
@@ -509,4 +509,4 @@ def eq_rows(put, objs1, objs2, uses1, uses2, re1, re2):
             except BaseException:  # noqa: BLE001  -- does not compile: the constructor fails anyway
                 continue
             put([11, r, fl, r2, fl2], prim(lambda: a == b))
-            put([12, r, fl, r2, fl2], "t" if a is b else "f")
+            put([15, r, fl, r2, fl2], hash_eq(lambda: a, lambda: b))
